@@ -21,7 +21,7 @@ func init() {
 	engine.Register(&engine.Property{
 		ID:    "C13",
 		Level: "exploration",
-		Rule: "exhaustive: ALL 2^15 word sets over the words of length <= 3 over {a,b} x ALL patterns and ALL anagrams (as sequences: the order of the letters matters to the constructor) of length <= 3 over {a,b,?} plus some of length 4, each with blank '?' and with blank 'a' (a letter of the alphabet; '?' is then a letter outside it), through searcher objects that are created once and reused over all the sets of a block; all pattern x anagram pairs of equal length on every 16th set (every set: thorough); the same over the 2^13 word sets of length <= 2 over {a,b,c} with all queries of length <= 2 over {a,b,c,?}; " +
+		Rule: "exhaustive: ALL 2^15 word sets over the words of length <= 3 over {a,b} x ALL patterns and ALL anagrams (as sequences: the order of the letters matters to the constructor) of length <= 3 over {a,b,?} plus some of length 4, each with blank '?' and with blank 'a' (a letter of the alphabet; '?' is then a letter outside it), through searcher objects that are created once and reused over all the sets of a block; all pattern x anagram pairs of equal length on every 8th set (every set: thorough); the same over the 2^13 word sets of length <= 2 over {a,b,c} with all queries of length <= 2 over {a,b,c,?}; " +
 			"fixed families x blanks at every subset of positions of short members (patterns and rotated anagrams), all-blank and empty queries; seeded sets (alphabets 1..256, up to 5000 words) x conjunctions of 0..3 seeded queries (members with blanks, near-members, letters outside the alphabet, repeated letters, blank equal to a letter), each searched twice on the Dawg, once on another Dawg and again on the first, partly through counting wrappers. " +
 			"Reference: filter of the sorted list with byte-wise match predicates; ids = ranks. non-trivial = a search on a Dawg with >= 2 words whose expected result is neither empty nor the whole set; distinct = (set, conjunction) by construction in the exhaustive part, by hash otherwise",
 		Assumptions: []string{
@@ -252,7 +252,7 @@ func run(c *engine.Ctx) {
 // ---- 1. exhaustive ----
 
 func exhaustive(c *engine.Ctx) {
-	exhaustiveOver(c, "exhaustive", "ab", 3, []string{"????", "a???", "abab", "?aab", "bb?a"}, 128, c.Pick(16, 1))
+	exhaustiveOver(c, "exhaustive", "ab", 3, []string{"????", "a???", "abab", "?aab", "bb?a"}, 128, c.Pick(8, 1))
 	exhaustiveOver(c, "exhaustive3", "abc", 2, []string{"???", "a??", "cab", "?ca", "cc?", "abc?"}, 32, c.Pick(64, 8))
 }
 
@@ -545,7 +545,7 @@ func searchRounds(c *engine.Ctx, b, other *built, callKey string, qs []refdawg.Q
 // ---- 3. seeded ----
 
 func seeded(c *engine.Ctx) {
-	nSets := c.Pick(8000, 80000)
+	nSets := c.Pick(12000, 80000)
 	perUnit := 40
 	for un := 0; un*perUnit < nSets; un++ {
 		un := un
